@@ -36,6 +36,30 @@ Theorem C20_frames_decode : forall ver phone cs k cmd body,
 Proof. exact frames_decode. Qed.
 Print Assumptions C20_frames_decode.
 
+(* ANY sequence of calls on one Terminal - CreateCommandData and CreateDefaultCommandData mixed, the
+   latter also for commands the simulator has no default body for (it then returns nil): the frames
+   actually produced are exactly those of the calls that produce one, generated as if the nil calls
+   had never been made - a call that returns nil consumes no serial *)
+Theorem C20_calls_frames : forall cs t,
+  somes (run_calls t cs) = create_all t (effective (t_pv t) cs).
+Proof. exact calls_frames. Qed.
+Print Assumptions C20_calls_frames.
+
+(* so the k-th frame PRODUCED by any such sequence decodes with that command, phone, layout, body and
+   serial k+1 mod 65536, however many nil calls lie in between *)
+Theorem C20_calls_frames_decode : forall ver phone cs k cmd body,
+  digits phone -> (length phone <= maxlen ver)%nat ->
+  nth_error (effective ver cs) k = Some (cmd, body) -> cmd < 65536 -> (length body <= 1023)%nat ->
+  exists t f m,
+    with_header ver phone = Ok t /\ nth_error (somes (run_calls t cs)) k = Some f /\
+    decode f = Ok m /\
+    m_id m = (if cmd =? 0 then 2 else cmd) /\
+    m_bcd m = phone_bcd ver phone /\ strip0 (phone_of m) = strip0 (map dchar phone) /\
+    m_ver m = (if ver =? V2019 then 1 else 0) /\ m_frag m = 0 /\ m_enc m = 0 /\
+    m_serial m = N.of_nat (S k) mod 65536 /\ m_body m = body /\ m_len m = len body.
+Proof. exact calls_frames_decode. Qed.
+Print Assumptions C20_calls_frames_decode.
+
 (* ... which is one greater than the serial of the previous frame, 65535 being followed by 0 *)
 Theorem C20_serial_progression : forall k,
   N.of_nat (S (S k)) mod 65536 = (N.of_nat (S k) mod 65536 + 1) mod 65536.
